@@ -53,13 +53,16 @@ class Writer:
         u = program.unit('core._t_child')
         self.unit = u
         stride = None
+        from .util import deref
+        wcfg = cfg_of(program, u)
         for n in u.own_nodes():
             if isinstance(n, ast.Assign) and len(n.targets) == 1 and isinstance(n.targets[0], ast.Attribute) \
-                    and n.targets[0].attr == '__ops__' and isinstance(n.value, ast.BinOp) \
-                    and isinstance(n.value.op, ast.Add) and isinstance(n.value.right, ast.Tuple):
-                stride = len(n.value.right.elts)
-                self.append_stmt = n
-                self.tuple_elts = n.value.right.elts
+                    and n.targets[0].attr == '__ops__':
+                v = deref(wcfg, wcfg.node_of(n), n.value)     # the tuple may be named first
+                if isinstance(v, ast.BinOp) and isinstance(v.op, ast.Add) and isinstance(v.right, ast.Tuple):
+                    stride = len(v.right.elts)
+                    self.append_stmt = n
+                    self.tuple_elts = v.right.elts
         if stride is None:
             raise AnalysisError('writer _t_child: cannot find ``t.__ops__ = base + (op, arg)``')
         self.stride = stride
@@ -177,12 +180,15 @@ class TInterp:
                     and isinstance(n.value.slice, ast.Constant) and n.value.slice.value == 0:
                 self.root_var = n.targets[0].id
         # cur variable: the Name returned by the last top-level return
+        # cur variable: the Name returned after the loop that is not the target parameter (the
+        # assignment root returns the target; every other root returns the running value)
         self.cur_var = None
-        for st in reversed(u.node.body):
-            if isinstance(st, ast.Return) and is_name(st.value):
-                self.cur_var = st.value.id
-                self.final_return = st
-                break
+        after = u.node.body[u.node.body.index(self.loop) + 1:] if self.loop in u.node.body else u.node.body
+        cands = [st for top in after for st in ast.walk(top) if isinstance(st, ast.Return) and is_name(st.value)
+                 and st.value.id != self.target_param]
+        if cands:
+            self.cur_var = cands[-1].value.id
+            self.final_return = cands[-1]
         if self.cur_var is None:
             raise AnalysisError('_t_eval: final ``return <cur>`` not found')
 
